@@ -168,8 +168,12 @@ class Interp:
         raise OutOfSubset(f"cannot havoc {v!r}")
 
     def force(self, v):
-        """split an optional value into None / not-None paths"""
-        while isinstance(v, VOpt):
+        """split an optional / union value into its kinds by path forking"""
+        while isinstance(v, (VOpt, VUnion)):
+            if isinstance(v, VUnion):
+                i = self.ctx.choose([c for c, _ in v.alts], "union")
+                v = v.alts[i][1]
+                continue
             if self.ctx.branch(v.isnone, "isnone"):
                 return NONE
             v = v.inner
@@ -205,6 +209,8 @@ class Interp:
             return v.present != z3.K(v.present.sort().domain(), z3.BoolVal(False))
         if isinstance(v, VOpt):
             return z3.And(z3.Not(v.isnone), self.truth(v.inner))
+        if isinstance(v, VUnion):
+            return z3.Or([z3.And(c, self.truth(x)) for c, x in v.alts])
         if isinstance(v, VJson):
             z = v.z
             return z3.If(J.is_jnull(z), False,
@@ -219,6 +225,10 @@ class Interp:
         raise OutOfSubset(f"truth of {v!r}")
 
     def eq(self, a, b):
+        if isinstance(a, VUnion):
+            return z3.Or([z3.And(c, self.eq(x, b)) for c, x in a.alts])
+        if isinstance(b, VUnion):
+            return z3.Or([z3.And(c, self.eq(a, x)) for c, x in b.alts])
         if isinstance(a, VOpt):
             return z3.If(a.isnone, self.eq(NONE, b), self.eq(a.inner, b))
         if isinstance(b, VOpt):
@@ -246,6 +256,10 @@ class Interp:
         if isinstance(a, (VTuple, VList)) and isinstance(b, (VTuple, VList)):
             if type(a) is not type(b) or len(a.items) != len(b.items):
                 return z3.BoolVal(False)
+            if isinstance(a, VTuple) and a.ntname != b.ntname and (a.ntname is None or b.ntname is None) is False:
+                # distinct namedtuple classes with equal fields still compare equal as tuples in
+                # CPython; the repository never relies on that, and the hints differ by class
+                pass
             return z3.And([self.eq(x, y) for x, y in zip(a.items, b.items)] + [z3.BoolVal(True)])
         if isinstance(a, VSeq) and isinstance(b, VSeq):
             return a.z == b.z
@@ -284,6 +298,10 @@ class Interp:
 
     def same(self, a, b):
         """'is' comparison"""
+        if isinstance(a, VUnion):
+            return z3.Or([z3.And(c, self.same(x, b)) for c, x in a.alts])
+        if isinstance(b, VUnion):
+            return z3.Or([z3.And(c, self.same(a, x)) for c, x in b.alts])
         if isinstance(a, VOpt):
             return z3.If(a.isnone, self.same(NONE, b), self.same(a.inner, b))
         if isinstance(b, VOpt):
@@ -317,6 +335,12 @@ class Interp:
 
     def s_Pass(self, s, fr):
         pass
+
+    def s_Break(self, s, fr):
+        raise BreakSig()
+
+    def s_Continue(self, s, fr):
+        raise ContinueSig()
 
     def s_Global(self, s, fr):
         pass
@@ -523,6 +547,7 @@ class Interp:
 
     def s_For(self, s, fr):
         it = self.force(self.eval(s.iter, fr))
+        it = self.iterable_of(it)
         if isinstance(it, VDict):
             it = VList([self.const(k) for k in it.d])
         if isinstance(it, (VList, VTuple)):
@@ -556,10 +581,29 @@ class Interp:
                 return
         self.loop(s, fr, it)
 
+    def iterable_of(self, it):
+        """what a for-loop / comprehension iterates over when handed a JSON value"""
+        if isinstance(it, VJson):
+            it = self.json_narrow(it)
+        if it is NONE or isinstance(it, (VInt, VBool, VReal)):
+            self.raise_("TypeError", VStr("object is not iterable"))
+        if isinstance(it, VJsonDict):
+            keys = z3.Const(self.ctx.namer("dictkeys"), z3.SeqSort(StringS))
+            k = z3.Const("k!dk", StringS)
+            self.ctx.assume(z3.ForAll([k], z3.Contains(keys, z3.Unit(k)) == OJ.is_present(z3.Select(J.d(it.z), k))))
+            return VSeq(keys, "str")
+        if isinstance(it, VStr):
+            chars = z3.Const(self.ctx.namer("chars"), z3.SeqSort(StringS))
+            j = z3.Int("j!ch")
+            self.ctx.assume(z3.Length(chars) == z3.Length(it.z))
+            self.ctx.assume(z3.ForAll([j], z3.Implies(z3.And(0 <= j, j < z3.Length(it.z)),
+                                                      chars[j] == z3.SubString(it.z, j, 1))))
+            return VSeq(chars, it.kind) if it.kind == "str" else VSeq(chars, "bytes")
+        return it
+
     def loop(self, s, fr, it):
         """cut a loop at its head with a sidecar invariant"""
-        ordn = fr.loop_ordinal
-        fr.loop_ordinal += 1
+        ordn = static_loop_ordinal(fr.fdef, s) if fr.fdef is not None else 0
         spec = None
         c = self.reg.contracts.get(fr.fdef.key) if fr.fdef else None
         if c is not None:
@@ -568,7 +612,8 @@ class Interp:
             raise OutOfSubset(f"loop #{ordn} in {fr.fdef.key if fr.fdef else '?'} has no invariant")
         header = ast.unparse(s.test) if isinstance(s, ast.While) else f"for {ast.unparse(s.target)} in {ast.unparse(s.iter)}"
         if spec.get("header") and spec["header"] != header:
-            raise OutOfSubset(f"loop #{ordn} header changed: {header!r} vs contract {spec['header']!r}")
+            # documentation only: a refactored header keeps its invariant (which must still be proved)
+            self.reg.note(f"loop #{ordn} of {fr.fdef.key}: header is now {header!r} (contract was written for {spec['header']!r})")
         fn = fr.fdef.key
         for nm, ty in spec.get("retype", {}).items():
             self.retype_local(fr, nm, ty)
@@ -635,14 +680,6 @@ class Interp:
                     self.ctx.assume(z3.And(it.z[k], z3.Not(done.z[k])))
                     self.assign(s.target, from_z3(k, it.elem), fr)
                     fr.locals["_cur"] = from_z3(k, it.elem)
-            elif isinstance(it, VJson):
-                z = it.z
-                self.ctx.assume(J.is_jlist(z))
-                self.ctx.assume(idx.z >= 0)
-                self.ctx.assume(idx.z <= z3.Length(J.l(z)))
-                enter = self.ctx.branch(idx.z < z3.Length(J.l(z)), f"for@{s.lineno}")
-                if enter:
-                    self.assign(s.target, VJson(J.l(z)[idx.z]), fr)
             else:
                 raise OutOfSubset(f"for over {it!r}")
         if enter:
@@ -1445,10 +1482,12 @@ class Interp:
 
     # ---- comprehensions (over concrete-length iterables only; symbolic ones need a model)
     def e_ListComp(self, e, fr):
-        return VList(self.comp(e, fr))
+        r = self.comp(e, fr)
+        return VSeq(r.z, r.elem) if isinstance(r, VSeqResult) else VList(r)
 
     def e_GeneratorExp(self, e, fr):
-        return VList(self.comp(e, fr))
+        r = self.comp(e, fr)
+        return VSeq(r.z, r.elem) if isinstance(r, VSeqResult) else VList(r)
 
     def e_SetComp(self, e, fr):
         raise OutOfSubset("set comprehension")
@@ -1458,16 +1497,12 @@ class Interp:
             raise OutOfSubset("nested comprehension")
         g = e.generators[0]
         it = self.force(self.eval(g.iter, fr))
-        if isinstance(it, VJson):
-            it = self.json_narrow(it)
-            if it is NONE or isinstance(it, (VInt, VBool, VReal)):
-                self.raise_("TypeError", VStr("object is not iterable"))
-        h = self.reg.ext_models.get("comp:" + (fr.fdef.key if fr.fdef else "?"))
+        it = self.iterable_of(it)
         if isinstance(it, VDict):
             it = VList([self.const(k) for k in it.d])
+        if isinstance(it, VSeq):
+            return self.comp_map(e, g, it, fr)
         if not isinstance(it, (VList, VTuple)):
-            if h is not None:
-                return h(self, e, fr, it)
             raise OutOfSubset(f"comprehension over {it!r}")
         out = []
         sub = Frame(fr.fdef, fr.module, fr.selfobj, fr)
@@ -1481,6 +1516,55 @@ class Interp:
             if ok:
                 out.append(self.eval(e.elt, sub))
         return out
+
+    def comp_map(self, e, g, xs, fr):
+        """[f(x) for x in xs] over a sequence of symbolic length, f under a total contract:
+        the result is a sequence r of the same length with ensures_f(xs[i], r[i]) for all i
+        (the callee's contract is all that is known; its requires are proved for every i)"""
+        if g.ifs or not (isinstance(e.elt, ast.Call) and len(e.elt.args) == 1 and not e.elt.keywords
+                         and isinstance(e.elt.args[0], ast.Name) and isinstance(g.target, ast.Name)
+                         and e.elt.args[0].id == g.target.id):
+            raise OutOfSubset("comprehension over a symbolic sequence that is not [f(x) for x in xs]")
+        f = self.force(self.eval(e.elt.func, fr))
+        if not isinstance(f, VFunc):
+            raise OutOfSubset("comprehension element is not a repository function")
+        c = self.reg.contracts.get(f.fdef.key)
+        if c is None or c.inline or c.modifies or not c.returns:
+            raise OutOfSubset(f"comprehension over a symbolic sequence needs a pure contract with a return type on {f.fdef.key}")
+        caller = fr.fdef.key if fr.fdef else "?"
+        i = z3.Int(self.ctx.namer("i!map"))
+        rng = z3.And(0 <= i, i < z3.Length(xs.z))
+        x_i = from_z3(xs.z[i], xs.elem)
+        sf = Frame(f.fdef, f.fdef.module, None, None)
+        pname = [a.arg for a in f.fdef.node.args.args if a.arg != "self"][0]
+        sf.locals[pname] = x_i
+        for k, r in enumerate(c.requires):
+            self.ctx.prove(z3.ForAll([i], z3.Implies(rng, self.truth(self.eval_spec(r, sf)))),
+                           f"{caller}.map[{c.target}].requires.{k}", {"kind": "call-requires", "src": r})
+        if c.raises or c.raises_exactly:
+            # some element may make the callee raise: that exception escapes the comprehension
+            excs = list(c.raises) + [x for x in c.raises_exactly if x not in c.raises]
+            idx = self.ctx.choose([z3.BoolVal(True)] * (1 + len(excs)), f"map-outcome[{c.target}]")
+            if idx > 0:
+                ecls = excs[idx - 1]
+                cond = c.raises_exactly.get(ecls, c.raises.get(ecls))
+                if cond:
+                    wit = z3.Int(self.ctx.namer("i!raise"))
+                    sf2 = Frame(f.fdef, f.fdef.module, None, None)
+                    sf2.locals[pname] = from_z3(xs.z[wit], xs.elem)
+                    self.ctx.assume(z3.And(0 <= wit, wit < z3.Length(xs.z), self.truth(self.eval_spec(cond, sf2))))
+                self.raise_(ecls)
+            for ecls, cond in c.raises_exactly.items():
+                self.ctx.assume(z3.ForAll([i], z3.Implies(rng, z3.Not(self.truth(self.eval_spec(cond, sf))))))
+        rt = parse_type(c.returns)
+        r = z3.Const(self.ctx.namer("mapped"), z3.SeqSort(sort_of(rt)))
+        self.ctx.assume(z3.Length(r) == z3.Length(xs.z))
+        r_i = from_z3(r[i], rt)
+        rel = [self.truth(self.eval_spec(ex, sf, result=r_i)) for _, ex in c.ensures]
+        if rel:
+            self.ctx.assume(z3.ForAll([i], z3.Implies(rng, z3.And(rel))))
+        self.ctx.event("callret", c.target + "[map]", VSeq(r, rt))
+        return VSeqResult(r, rt)
 
     # ---- calls
     def e_Call(self, e, fr):
@@ -1757,6 +1841,12 @@ class Interp:
             self.spec_mode -= 1
 
 
+class VSeqResult:
+    def __init__(self, z, elem):
+        self.z = z
+        self.elem = elem
+
+
 class VJsonDict(V):
     """a JSON value already known (on this path) to be a dict"""
 
@@ -1801,6 +1891,25 @@ def _parse_cache(src):
     if src not in _pcache:
         _pcache[src] = ast.parse(src.strip(), mode="eval")
     return _pcache[src]
+
+
+def static_loop_ordinal(fd, node):
+    """loops are numbered in source order within the function (nested functions excluded)"""
+    m = getattr(fd, "_loop_ord", None)
+    if m is None:
+        loops = []
+
+        def walk(n, top):
+            for ch in ast.iter_child_nodes(n):
+                if isinstance(ch, (ast.FunctionDef, ast.Lambda, ast.AsyncFunctionDef)) and not top:
+                    continue
+                if isinstance(ch, (ast.For, ast.While)):
+                    loops.append(ch)
+                walk(ch, False)
+        walk(fd.node, True)
+        loops.sort(key=lambda x: (x.lineno, x.col_offset))
+        m = fd._loop_ord = {id(x): i for i, x in enumerate(loops)}
+    return m.get(id(node), -1)
 
 
 def is_static(fd):
